@@ -121,11 +121,50 @@ func flipBit(b []byte, i int) []byte {
 }
 
 
+// cloneOrNil copies an input the harness hands to the library. The copy sits inside a larger buffer with spare capacity
+// (cap > len) and live, non-zero bytes before and after it: a callee that appends to its argument, or writes just past
+// it, damages the caller's neighbouring data. The surroundings are compared again when the generator has finished
+// ("caller-memory-around-argument-modified").
 func cloneOrNil(b []byte) []byte {
 	if b == nil {
 		return nil
 	}
-	return append(make([]byte, 0, len(b)), b...)
+	const pad = 24
+	big := make([]byte, pad+len(b)+pad)
+	for i := range big {
+		big[i] = byte(0xC1 + 7*i)
+	}
+	copy(big[pad:], b)
+	guardMu.Lock()
+	if len(guards) < 6000 {
+		guards = append(guards, guardRec{big, pad, len(b)})
+	}
+	guardMu.Unlock()
+	return big[pad : pad+len(b)] // cap reaches into the trailing guard
+}
+
+type guardRec struct {
+	big      []byte
+	off, len int
+}
+
+var guards []guardRec
+var guardMu sync.Mutex
+
+func guardVerdict() string {
+	guardMu.Lock()
+	defer guardMu.Unlock()
+	for _, g := range guards {
+		for i := range g.big {
+			if i >= g.off && i < g.off+g.len {
+				continue
+			}
+			if g.big[i] != byte(0xC1+7*i) {
+				return fmt.Sprintf("caller-memory-around-argument-modified: offset %d relative to an argument of %d bytes", i-g.off, g.len)
+			}
+		}
+	}
+	return "ok"
 }
 
 func wipe(b []byte) {
